@@ -169,6 +169,18 @@ VNode gen_root(Entropy &e) {
         }
         put("items", a);
     }
+    // a two-element array for deep nesting (2^depth iterations stay small)
+    {
+        VNode a;
+        a.k = VK::Arr;
+        for (unsigned i = 0; i < 2; ++i) {
+            VNode x;
+            x.k = VK::UInt;
+            x.u = e.below(5) + i * 5;
+            a.arr.push_back(x);
+        }
+        put("pair", a);
+    }
     // an object of scalars / containers (object loops, key printing)
     {
         VNode o;
@@ -1066,9 +1078,89 @@ struct Gen {
         }
     }
 
+    // "nested to any depth": a chain of 7..13 nested loops (over the two-element set) and ifs whose innermost body prints
+    // the values of several enclosing loops; every enclosing loop has a second iteration after the deepest tag was rendered
+    std::unique_ptr<TNode> gen_deep(GenScope &sc) {
+        unsigned               levels = 7 + e.below(7);
+        std::unique_ptr<TNode> top;
+        TNode                 *cur = nullptr;
+        std::vector<int>       vars;
+        size_t                 pushed = 0;
+        for (unsigned i = 0; i < levels; ++i) {
+            auto n = std::make_unique<TNode>();
+            ++tags;
+            TList *body;
+            if (e.chance(75) || i + 1 == levels) {
+                n->k            = TNode::Loop;
+                n->has_set      = true;
+                n->path.head    = "pair";
+                n->has_value    = true;
+                n->var          = "it" + std::to_string(++sc.counter);
+                n->quote        = '"';
+                kinds_mask |= 64;
+                sc.loops.push_back(GenScope::LV{n->var, nullptr, false, false});
+                ++pushed;
+                vars.push_back(int(sc.loops.size()) - 1);
+                body = &n->body;
+            } else {
+                n->k = TNode::If;
+                kinds_mask |= 32;
+                TNode::Branch b;
+                b.cond    = std::make_unique<Expr>();
+                b.cond->k = Expr::LitInt;
+                b.cond->i = 1;
+                n->branches.push_back(std::move(b));
+                body = &n->branches[0].body;
+            }
+            TNode *raw = n.get();
+            if (cur == nullptr) {
+                top = std::move(n);
+            } else {
+                TList *pb = (cur->k == TNode::Loop) ? &cur->body : &cur->branches[0].body;
+                pb->push_back(std::move(n));
+            }
+            cur = raw;
+            (void)body;
+        }
+        // innermost body: print up to four of the enclosing loop values, outermost first
+        TList *inner = (cur->k == TNode::Loop) ? &cur->body : &cur->branches[0].body;
+        for (size_t k = 0; k < vars.size(); ++k) {
+            if (k < 2 || k + 2 >= vars.size()) {
+                auto v       = std::make_unique<TNode>();
+                v->k         = TNode::Var;
+                v->path.loop = vars[k];
+                v->path.head = sc.loops[size_t(vars[k])].name;
+                ++tags;
+                ++resolved;
+                inner->push_back(std::move(v));
+                auto t  = std::make_unique<TNode>();
+                t->k    = TNode::Text;
+                t->text = ",";
+                inner->push_back(std::move(t));
+            }
+        }
+        auto t  = std::make_unique<TNode>();
+        t->k    = TNode::Text;
+        t->text = ";";
+        inner->push_back(std::move(t));
+        for (size_t k = 0; k < pushed; ++k) {
+            sc.loops.pop_back();
+        }
+        if (int(levels) > max_depth) {
+            max_depth = int(levels);
+        }
+        deep = true;
+        return top;
+    }
+    bool deep{false};
+
     void gen_list(GenScope &sc, TList &out, int depth, bool inside_if) {
         if (depth > max_depth) {
             max_depth = depth;
+        }
+        if (depth == 1 && e.chance(7)) {
+            out.push_back(gen_text());
+            out.push_back(gen_deep(sc));
         }
         unsigned n = 1 + e.below(3);
         for (unsigned i = 0; i < n; ++i) {
@@ -1246,7 +1338,7 @@ struct Scenario {
     std::string expect;
     int  tags{0}, resolved{0}, depth{0};
     unsigned kinds{0};
-    bool loop_in_if{false}, sort{false}, group{false}, unresolved{false};
+    bool loop_in_if{false}, sort{false}, group{false}, unresolved{false}, deep{false};
 };
 
 void make_scenario(const Case &c, Scenario &s) {
@@ -1268,6 +1360,7 @@ void make_scenario(const Case &c, Scenario &s) {
     s.sort       = g.uses_sort;
     s.group      = g.uses_group;
     s.unresolved = g.has_unresolved;
+    s.deep       = g.deep;
 }
 
 template <typename Char_T>
@@ -1435,6 +1528,7 @@ struct H {
         ctx.label("uses-sort", s.sort);
         ctx.label("uses-group", s.group);
         ctx.label("has-unresolved-path", s.unresolved);
+        ctx.label("nesting>=8", s.depth >= 8);
         std::string got;
         switch (c.width) {
             case 1: got = render_with_library<char>(s, ctx); break;
